@@ -94,6 +94,8 @@ type Exec struct {
 	blockSeq       int
 	compressPolicy int
 	crcTable       *Cell
+	pcVars         *big.Int
+	pcVarsN        int
 }
 
 type NdInput struct {
@@ -200,6 +202,10 @@ func (x *Exec) branch(c *Term) bool {
 	}
 	taken := x.choose(func() []int {
 		if x.merging > 0 {
+			return []int{0, 1}
+		}
+		if x.freeSplit(c) {
+			x.res.FreeSplits++
 			return []int{0, 1}
 		}
 		var o []int
@@ -1334,4 +1340,62 @@ func debugf(format string, args ...interface{}) {
 	if os.Getenv("GOSYM_DEBUG") != "" {
 		fmt.Fprintf(os.Stderr, format+"\n", args...)
 	}
+}
+
+// freeSplit recognises a branch condition (v == t) or (v != t) where v is a vector of whole, pairwise distinct input
+// variables that occur neither in t nor in the path condition: both outcomes are then feasible without asking the
+// solver (pick v equal to t, or different from it).
+func (x *Exec) freeSplit(c *Term) bool {
+	if c.Op == OpBNot {
+		c = c.Args[0]
+	}
+	if c.Op != OpEq || c.Args[0].W == 0 {
+		return false
+	}
+	for i := 0; i < 2; i++ {
+		v, t := c.Args[i], c.Args[1-i]
+		if !freeVec(v) {
+			continue
+		}
+		vs := x.ctx.VarSet(v)
+		if new(big.Int).And(vs, x.ctx.VarSet(t)).Sign() != 0 {
+			continue
+		}
+		if new(big.Int).And(vs, x.pcVarSet()).Sign() != 0 {
+			continue
+		}
+		return true
+	}
+	return false
+}
+
+func freeVec(v *Term) bool {
+	switch v.Op {
+	case OpVar:
+		return true
+	case OpConcat:
+		seen := map[int]bool{}
+		for _, a := range v.Args {
+			if a.Op != OpVar || seen[a.ID] {
+				return false
+			}
+			seen[a.ID] = true
+		}
+		return true
+	}
+	return false
+}
+
+func (x *Exec) pcVarSet() *big.Int {
+	if x.pcVars == nil {
+		x.pcVars = new(big.Int)
+	}
+	if x.pcVarsN > len(x.pc) {
+		x.pcVars = new(big.Int)
+		x.pcVarsN = 0
+	}
+	for ; x.pcVarsN < len(x.pc); x.pcVarsN++ {
+		x.pcVars.Or(x.pcVars, x.ctx.VarSet(x.pc[x.pcVarsN]))
+	}
+	return x.pcVars
 }
